@@ -6,7 +6,7 @@ PROPERTY = 'C20'
 LEVEL = 'exploration'
 RULE = ('the complete table of (operation, state in which it can complete without waiting): awaiting instant/+0, true flag / '
         'comparison / resource comparison / and / or / inverted flag, time>=past/now, time<future, time==now, a done task, its done '
-        'condition, an ended scope; flag.set (changing / not changing / unset); tracked set / +; queue put (with / without waiting '
+        'condition, an ended scope; flag.set (changing / not changing / unset, directly and through the inverse flag); tracked set / +; queue put (with / without waiting '
         'receiver), buffered get, close (open / closed), iteration steps over buffered items; channel put (with / without consumer), '
         'close; borrow / claim / nested borrow with resources available and their release (normal, and while an exception / until-interrupt / cancellation leaves the block); increase / decrease / set; transfers of '
         'zero volume, on an infinite pipe, on an UnboundedPipe; interval(0) / delay(0); collect of nothing / of instant activities; '
@@ -45,6 +45,8 @@ def rows():
     ops('resource-cmp', [], [['WAIT', ['R', 'r', '>=', {'a': 1}]]], R2)
     ops('time', [['D', 1]], [['GE', 0], ['GE', 1], ['LT', 5], ['EQ', 1], ['WAIT', ['AND', ['GE', 0], ['LT', 3]]]])
     ops('flag-set', [], [['SET', 'A', True], ['SET', 'A', True], ['SET', 'A', False], ['SET', 'A', False]], F2)
+    # (through the inverse of the flag: changing, not changing, from both states)
+    ops('flag-set-inverse', [], [['NSET', 'A', True], ['NSET', 'A', False], ['NSET', 'A', False], ['NSET', 'A', True], ['NSET', 'A', True]], F2)
     ops('tracked-set', [], [['TSET', 'X', 3], ['TSET', 'X', 3], ['TADD', 'X', 1]], {'X': ['Tracked', 0]})
     row('task-done', [['SCOPE', 'a', [['DO', 't', [['RETURN', 5]]], ['INSTANT'], ['INSTANT'], ['AWAIT', 't'], ['AWAITDONE', 't'],
                                       ['WAIT', ['DONE', 't']]]]], [((0, 3), 'op'), ((0, 4), 'op'), ((0, 5), 'op')])
